@@ -19,7 +19,7 @@ use std::sync::Mutex;
 use xplore::*;
 
 #[derive(Clone, Copy, Debug, PartialEq)]
-struct Probe(u32);
+pub struct Probe(u32);
 impl Evaluate for Probe {
     #[inline]
     fn evaluate(&self, x: f64) -> f64 {
@@ -31,7 +31,33 @@ fn probe_pw(ends: &[f64]) -> Piecewise<Probe> {
     Piecewise { segments: ends.iter().enumerate().map(|(i, &e)| Segment { end: e, poly: Probe(i as u32) }).collect() }
 }
 
-type Key = (usize, usize, u64);
+/// State identity: the accessor triple (offset, ahead, last argument) AND every word of the evaluator object itself, so that
+/// state the accessor does not know about (a counter or flag added to the struct) still separates states. Words that point
+/// into the segment array are replaced by their offset (address independence).
+type Key = (usize, usize, u64, Vec<u64>);
+
+fn key_of(ev: &PiecewiseEvaluator<Probe>, pw: &Piecewise<Probe>, mask: &[u64]) -> Key {
+    let (a, b, c) = ev.verif_state();
+    let n = std::mem::size_of_val(ev);
+    let p = ev as *const PiecewiseEvaluator<Probe> as *const u8;
+    let lo = pw.segments.as_ptr() as u64;
+    let hi = lo + (pw.segments.len() * std::mem::size_of::<Segment<Probe>>()) as u64;
+    let mut words = Vec::with_capacity(n / 8 + 1);
+    let mut i = 0;
+    while i < n {
+        let m = (n - i).min(8);
+        let mut w = [0u8; 8];
+        // (the object is a plain struct of references, floats and integers; padding bytes, if a changed layout has any, hold
+        // whatever was there before - the replay check in explore_shape finds such bits and masks them)
+        unsafe { std::ptr::copy_nonoverlapping(p.add(i), w.as_mut_ptr(), m) };
+        let v = u64::from_le_bytes(w);
+        let v = if v >= lo && v <= hi && lo != 0 { 0xA5A5_0000_0000_0000 | (v - lo) } else { v };
+        // bits that are not a function of the history (padding) are masked out; the mask is learnt per shape, see explore_shape
+        words.push(v & !mask.get(i / 8).cloned().unwrap_or(0));
+        i += 8;
+    }
+    (a, b, c, words)
+}
 
 struct ShapeResult {
     states: u64,
@@ -41,6 +67,11 @@ struct ShapeResult {
     violation: Option<Value>,
     keys: Vec<Key>,
     sample: Option<Value>,
+    /// number of distinct accessor triples among the states (smaller than `states` = the object holds state the accessor does not show)
+    hook_states: u64,
+    /// bits of the object found not to be a function of the history (padding) and left out of the identity
+    masked_bits: u64,
+    aborted: bool,
 }
 
 fn materialise<'a>(pw: &'a Piecewise<Probe>, alpha: &[f64], hist: &[u16]) -> PiecewiseEvaluator<'a, Probe> {
@@ -51,13 +82,74 @@ fn materialise<'a>(pw: &'a Piecewise<Probe>, alpha: &[f64], hist: &[u16]) -> Pie
     ev
 }
 
-fn explore_shape(ends: &[f64], with_nan: bool) -> ShapeResult {
+/// Padding bits of the evaluator object, found once: the same histories are materialised into memory pre-filled with 0x00 and
+/// with 0xff (the destination slot and the stack below the caller); object bits that differ were never written by the library.
+fn padding_mask() -> &'static Vec<u64> {
+    static M: std::sync::OnceLock<Vec<u64>> = std::sync::OnceLock::new();
+    M.get_or_init(|| {
+        #[inline(never)]
+        fn poison(p: u8) -> u64 {
+            let mut a = [p; 32768];
+            std::hint::black_box(&mut a);
+            a[17] as u64
+        }
+        #[inline(never)]
+        fn words_of(pw: &Piecewise<Probe>, hist: &[f64], p: u8) -> Vec<u64> {
+            let mut slot = std::mem::MaybeUninit::<PiecewiseEvaluator<Probe>>::uninit();
+            unsafe { std::ptr::write_bytes(slot.as_mut_ptr() as *mut u8, p, std::mem::size_of::<PiecewiseEvaluator<Probe>>()) };
+            std::hint::black_box(poison(p));
+            let ev = slot.write(PiecewiseEvaluator::new(&pw.segments));
+            for &x in hist {
+                std::hint::black_box(poison(p));
+                ev.evaluate(x);
+            }
+            key_of(ev, pw, &[]).3
+        }
+        let pw = probe_pw(&[1.0, 2.0, 3.0, 4.0, 5.0]);
+        let mut mask = vec![0u64; std::mem::size_of::<PiecewiseEvaluator<Probe>>().div_ceil(8)];
+        for hist in [&[][..], &[0.5], &[4.5, 0.5], &[2.5, 2.5, 7.0], &[7.0, 3.0, 1.0, f64::NAN]] {
+            let a = words_of(&pw, hist, 0x00);
+            let b = words_of(&pw, hist, 0xff);
+            for (m, (x, y)) in mask.iter_mut().zip(a.iter().zip(&b)) {
+                *m |= x ^ y;
+            }
+        }
+        mask
+    })
+}
+
+fn explore_shape(ends: &[f64], with_nan: bool, abort: &dyn Fn() -> bool) -> ShapeResult {
+    // bits of the object that two materialisations of the same history do not agree on are padding: learn them and start over
+    let mut mask: Vec<u64> = padding_mask().clone();
+    loop {
+        match explore_shape_masked(ends, with_nan, &mask, abort) {
+            Ok(mut r) => {
+                r.masked_bits = mask.iter().map(|w| w.count_ones() as u64).sum();
+                return r;
+            }
+            Err(more) => {
+                if mask.len() < more.len() {
+                    mask.resize(more.len(), 0);
+                }
+                let before: u64 = mask.iter().map(|w| w.count_ones() as u64).sum();
+                for (m, x) in mask.iter_mut().zip(&more) {
+                    *m |= x;
+                }
+                if mask.iter().map(|w| w.count_ones() as u64).sum::<u64>() == before {
+                    machinery("engine B: a replay mismatch did not enlarge the padding mask");
+                }
+            }
+        }
+    }
+}
+
+fn explore_shape_masked(ends: &[f64], with_nan: bool, mask: &[u64], abort: &dyn Fn() -> bool) -> Result<ShapeResult, Vec<u64>> {
     let pw = probe_pw(ends);
     let mut alpha = order_alphabet(ends);
     if with_nan {
         alpha.extend(nans());
     }
-    let mut r = ShapeResult { states: 0, transitions: 0, nontrivial: 0, max_hist: 0, violation: None, keys: vec![], sample: None };
+    let mut r = ShapeResult { states: 0, transitions: 0, nontrivial: 0, max_hist: 0, violation: None, keys: vec![], sample: None, hook_states: 0, masked_bits: 0, aborted: false };
     let pre = guard(|| {
         let direct: Vec<f64> = alpha.iter().map(|&x| pw.evaluate(x)).collect();
         let fresh: Vec<f64> = alpha.iter().map(|&x| PiecewiseEvaluator::new(&pw.segments).evaluate(x)).collect();
@@ -67,24 +159,29 @@ fn explore_shape(ends: &[f64], with_nan: bool) -> ShapeResult {
         Ok(t) => t,
         Err(p) => {
             r.violation = Some(json!({"what": format!("evaluation of a non-empty function panicked: {p}"), "engine": "B (reachable-state fixpoint)", "ends": fjs(ends), "history": fjs(&alpha), "with_nan": with_nan}));
-            return r;
+            return Ok(r);
         }
     };
     let mut seen: HashMap<Key, Vec<u16>> = HashMap::new();
     let mut queue: VecDeque<Key> = VecDeque::new();
-    let k0 = PiecewiseEvaluator::new(&pw.segments).verif_state();
-    seen.insert(k0, vec![]);
+    let k0 = key_of(&PiecewiseEvaluator::new(&pw.segments), &pw, mask);
+    seen.insert(k0.clone(), vec![]);
     queue.push_back(k0);
     while let Some(k) = queue.pop_front() {
+        if abort() {
+            // a shape earlier in the list already violates: this result would not be reported
+            r.aborted = true;
+            return Ok(r);
+        }
         let hist = seen[&k].clone();
         r.max_hist = r.max_hist.max(hist.len());
         for (qi, &x) in alpha.iter().enumerate() {
             let out = guard(|| {
                 let mut ev = materialise(&pw, &alpha, &hist);
                 // replay must reproduce the stored canonical state (determinism check)
-                let again = ev.verif_state();
+                let again = key_of(&ev, &pw, mask);
                 let y = ev.evaluate(x);
-                (again, y, ev.verif_state())
+                (again, y, key_of(&ev, &pw, mask))
             });
             r.transitions += 1;
             let mk = |what: &str, got: Value| {
@@ -96,11 +193,15 @@ fn explore_shape(ends: &[f64], with_nan: bool) -> ShapeResult {
             let (again, y, nk) = match out {
                 Err(p) => {
                     r.violation = Some(mk(&format!("PiecewiseEvaluator::evaluate panicked: {p}"), json!(p)));
-                    return r;
+                    return Ok(r);
                 }
                 Ok(t) => t,
             };
             if again != k {
+                if (again.0, again.1, again.2) == (k.0, k.1, k.2) && again.3.len() == k.3.len() {
+                    // the accessor state is reproduced, some object bits are not: they are not a function of the history
+                    return Err(again.3.iter().zip(&k.3).map(|(a, b)| a ^ b).collect());
+                }
                 machinery(&format!("engine B: replaying a stored history did not reproduce its canonical state: {again:?} vs {k:?}"));
             }
             if nk.0 + nk.1 != pw.segments.len() - 1 {
@@ -109,11 +210,11 @@ fn explore_shape(ends: &[f64], with_nan: bool) -> ShapeResult {
             if !x.is_nan() {
                 if y.to_bits() != direct[qi].to_bits() {
                     r.violation = Some(mk("PiecewiseEvaluator answer differs from direct evaluation of the same argument", fj(y)));
-                    return r;
+                    return Ok(r);
                 }
                 if y.to_bits() != fresh[qi].to_bits() {
                     r.violation = Some(mk("the answer depends on earlier queries: a fresh evaluator answers differently", fj(y)));
-                    return r;
+                    return Ok(r);
                 }
                 if nk.0 < k.0 || ends.iter().any(|&e| e == x) {
                     r.nontrivial += 1;
@@ -126,13 +227,14 @@ fn explore_shape(ends: &[f64], with_nan: bool) -> ShapeResult {
                     r.sample = Some(json!({"ends": fjs(ends), "history_reaching_state": fjs(&h.iter().map(|&i| alpha[i as usize]).collect::<Vec<_>>()),
                         "state": {"offset": nk.0, "ahead": nk.1, "last_argument": fj(f64::from_bits(nk.2))}}));
                 }
-                seen.insert(nk, h);
+                seen.insert(nk.clone(), h);
                 queue.push_back(nk);
             }
         }
     }
     r.states = seen.len() as u64;
     r.keys = seen.keys().cloned().collect();
+    r.hook_states = seen.keys().map(|k| (k.0, k.1, k.2)).collect::<std::collections::HashSet<_>>().len() as u64;
     // closure check: every state reached by *any* history of depth <= 3 must be in the fixpoint
     let n = alpha.len();
     let mut cnt = 0u64;
@@ -143,7 +245,7 @@ fn explore_shape(ends: &[f64], with_nan: bool) -> ShapeResult {
         let mut ev = PiecewiseEvaluator::new(&pw.segments);
         for &i in &idx {
             ev.evaluate(alpha[i]);
-            if !keyset.contains(&ev.verif_state()) {
+            if !keyset.contains(&key_of(&ev, &pw, mask)) {
                 machinery("engine B: a state reached by a bounded history is missing from the fixpoint (search not closed)");
             }
         }
@@ -162,7 +264,7 @@ fn explore_shape(ends: &[f64], with_nan: bool) -> ShapeResult {
         }
     }
     let _ = cnt;
-    r
+    Ok(r)
 }
 
 // ------------------------------------------------------------------ stateright cross-check
@@ -194,12 +296,13 @@ mod sr {
         pub pw: Piecewise<Probe>,
         pub alpha: Vec<f64>,
         pub direct: Vec<f64>,
+        pub mask: Vec<u64>,
     }
     impl Model for M {
         type State = St;
         type Action = u16;
         fn init_states(&self) -> Vec<St> {
-            vec![St { key: PiecewiseEvaluator::new(&self.pw.segments).verif_state(), ok: true, hist: vec![] }]
+            vec![St { key: key_of(&PiecewiseEvaluator::new(&self.pw.segments), &self.pw, &self.mask), ok: true, hist: vec![] }]
         }
         fn actions(&self, s: &St, out: &mut Vec<u16>) {
             if s.ok {
@@ -213,7 +316,7 @@ mod sr {
             let ok = x.is_nan() || y.to_bits() == self.direct[a as usize].to_bits();
             let mut hist = s.hist.clone();
             hist.push(a);
-            Some(St { key: ev.verif_state(), ok, hist })
+            Some(St { key: key_of(&ev, &self.pw, &self.mask), ok, hist })
         }
         fn properties(&self) -> Vec<Property<Self>> {
             vec![Property::always("answer equals direct evaluation", |_m: &M, s: &St| s.ok)]
@@ -227,7 +330,7 @@ mod sr {
             alpha.extend(nans());
         }
         let direct = alpha.iter().map(|&x| pw.evaluate(x)).collect();
-        let m = M { pw, alpha, direct };
+        let m = M { pw, alpha, direct, mask: vec![!0u64; 64] };
         let c = m.checker().threads(1).spawn_bfs().join();
         (c.unique_state_count(), c.discovery("answer equals direct evaluation").is_some())
     }
@@ -296,6 +399,13 @@ fn main() {
     let thorough = args[2] == "thorough";
     let t0 = std::time::Instant::now();
     let sl = shape_list(thorough);
+    let hidden = AtomicUsize::new(0);
+    let masked = AtomicUsize::new(0);
+    let min_bad = AtomicUsize::new(usize::MAX);
+    let mut round = 0;
+    let (states, transitions, nontrivial, max_hist, violation, mut samples, per_shape) = loop {
+    round += 1;
+    hidden.store(0, Ordering::SeqCst);
     let next = AtomicUsize::new(0);
     let agg = Mutex::new((0u64, 0u64, 0u64, 0usize, None::<(usize, Value)>, Vec::<Value>::new(), Vec::<(usize, usize)>::new()));
     std::thread::scope(|s| {
@@ -305,7 +415,20 @@ fn main() {
                 if i >= sl.len() {
                     break;
                 }
-                let r = explore_shape(&sl[i], with_nan);
+                if i > min_bad.load(Ordering::SeqCst) {
+                    continue;
+                }
+                let r = explore_shape(&sl[i], with_nan, &|| i > min_bad.load(Ordering::SeqCst));
+                if r.aborted {
+                    continue;
+                }
+                if r.violation.is_some() {
+                    min_bad.fetch_min(i, Ordering::SeqCst);
+                }
+                masked.fetch_max(r.masked_bits as usize, Ordering::SeqCst);
+                if r.hook_states < r.states {
+                    hidden.fetch_add(1, Ordering::SeqCst);
+                }
                 let mut g = agg.lock().unwrap();
                 g.0 += r.states;
                 g.1 += r.transitions;
@@ -321,11 +444,13 @@ fn main() {
                         g.5.push(sv);
                     }
                 }
-                g.6.push((i, r.states as usize));
+                g.6.push((i, r.hook_states as usize)); // (the stateright cross-check identifies states by the accessor triple)
             });
         }
     });
-    let (states, transitions, nontrivial, max_hist, violation, mut samples, per_shape) = agg.into_inner().unwrap();
+    let _ = round;
+    break agg.into_inner().unwrap();
+    };
     if samples.is_empty() {
         samples.push(json!({"ends": fjs(&sl[0]), "note": "single-state shape"}));
     }
@@ -360,7 +485,10 @@ fn main() {
                          "engine": "stateright 0.31 BFS over the same real transition function, state identity = accessor key"});
     }
     let part = json!({
-        "engine": "explicit-state BFS to a fixpoint over the real PiecewiseEvaluator (state = verif_state() key, re-materialised by replaying the shortest history)",
+        "engine": "explicit-state BFS to a fixpoint over the real PiecewiseEvaluator (state = verif_state() triple plus every word of the evaluator object, re-materialised by replaying the shortest history)",
+        "state_identity": "accessor triple + object words (pointers into the segment array as offsets; bits that two replays of one history disagree on - padding - masked)",
+        "object_bits_masked_as_padding": masked.load(Ordering::SeqCst),
+        "shapes_with_state_the_accessor_does_not_show": hidden.load(Ordering::SeqCst),
         "states": states, "transitions": transitions, "traces_validated_against_impl": transitions, "evaluations": transitions,
         "distinct_nontrivial": nontrivial,
         "nontrivial_rule": "transition that moves the cursor backwards or whose query equals an end",
